@@ -58,6 +58,8 @@ pub enum Act {
     Collect(Party),
     Tick1,
     TickDelay,
+    /// one epoch short of the settle delay (collect must still be refused right after a settle)
+    TickDelayShort,
 }
 
 #[derive(Clone, Debug, Serialize, Default)]
@@ -322,6 +324,7 @@ impl Scenario for Paych {
             Act::Collect(p) => format!("collect({p:?})"),
             Act::Tick1 => "tick(1)".into(),
             Act::TickDelay => "tick(settle-delay)".into(),
+            Act::TickDelayShort => "tick(settle-delay - 1)".into(),
         }
     }
 
@@ -405,6 +408,7 @@ impl Scenario for Paych {
         }
         if s.m.delay_left > 0 {
             v.push(Act::TickDelay);
+            v.push(Act::TickDelayShort);
         }
         v
     }
@@ -490,10 +494,10 @@ impl Scenario for Paych {
                 m.ticks_left -= 1;
                 outcome = "ok";
             }
-            Act::TickDelay => {
+            Act::TickDelay | Act::TickDelayShort => {
                 // nothing is scheduled in this scenario (no miners, no deals): idle epochs are skipped
                 vm.tick();
-                vm.set_epoch(now + SETTLE_DELAY);
+                vm.set_epoch(now + SETTLE_DELAY - if matches!(a, Act::TickDelayShort) { 1 } else { 0 });
                 m.delay_left -= 1;
                 outcome = "ok";
             }
